@@ -278,6 +278,7 @@ def worker(args):
     rundir = tempfile.mkdtemp(prefix="verif-c17s-")
     delay = "%d:%d:%d" % (rng.choice([60, 200, 400]), rng.choice([0, 50, 300]), (seed * 17 + shard) & 0x7FFFFFFF) if shard % 2 == 1 else None
     ses = Session(exe, rundir, flavor, delay=delay)
+    stuck = 0
     try:
         for i in range(n):
             if delay:
@@ -292,6 +293,12 @@ def worker(args):
             F, wit = judge(part, flavor, case, res, status, received, perrs, err)
             for key, what in F:
                 part.violation(key, what, dict(wit, serial_part=True))
+            if res and res.get("drained") == 0:
+                stuck += 1
+                if stuck >= 2:
+                    # calls that never complete cost a watchdog each: two such cases are reported, the rest of this shard is skipped
+                    part.count("serial-part:shard-cut-short-after-two-stuck-cases")
+                    break
             if i == 0 and shard == 0:
                 part.sample({"part": "serial", "line": case_line(case), "wire_serials": [m.serial for m in received][:12]})
     finally:
